@@ -69,6 +69,8 @@ def gen_cases(ctx):
             n_ops = int(rng.integers(3, 25))
             hist = [ops.gen_op(rng, keys, max_value=50 if cfg["kind"] in ("log16", "log8") else None) for _ in range(n_ops)]
             yield {"cfg": cfg, "history": hist, "offsets": "all", "overwrite": bool((i + rd) % 2)}
+    yield {"cfg": {"kind": "linear", "width": 600, "depth": 2}, "history": [["add", "61", 3]], "offsets": "all", "embed": True}
+    yield {"cfg": {"kind": "hll", "p": 12, "seed": 0}, "history": [["add", "61", 3]], "offsets": "all", "embed": True}
 
 
 def run_case(case, ctx, mon):
@@ -77,6 +79,18 @@ def run_case(case, ctx, mon):
     sketch = state.make(cfg)
     for op in case["history"]:
         mon.api(ops.apply_op, sketch, op)
+    if case.get("embed"):
+        # adversarial counter contents: the table's bytes spell a complete saved sketch (a smaller one of the same class)
+        inner = state.make(dict(cfg, width=3, depth=1) if kind != "hll" else dict(cfg, p=7))
+        inner.add(b"inner", 2)
+        ipath = state.tmp_path(".npz")
+        inner.save(ipath)
+        blob = open(ipath, "rb").read()
+        os.unlink(ipath)
+        raw = getattr(sketch, {"hh": "lhh", "hll": "registers"}.get(kind, "cms")).reshape(-1).view(np.uint8)
+        if len(raw) >= len(blob) + 8:
+            raw[4: 4 + len(blob)] = np.frombuffer(blob, np.uint8)
+            mon.count("files_with_an_archive_embedded_in_the_table")
     snap = state.snapshot(sketch)
     nonempty = any(np.any(snap[a]) for a in state.ARRAYS[kind])
     path = state.tmp_path(".npz")
@@ -102,6 +116,9 @@ def run_case(case, ctx, mon):
             mon.check(not diff, "complete-file-loads-to-saved-state", loader=name, differs_in=diff, cfg=cfg)
             del loaded
         mon.nontrivial(nonempty)
+        full = open(path, "rb").read()
+        sig = b"PK\x05\x06"  # end-of-central-directory signature
+        outer_eocd = full.rfind(sig)
         offs = case.get("offsets", "all")
         offsets = range(size - 1, -1, -1) if offs == "all" else sorted((int(o) for o in offs), reverse=True)
         for off in offsets:
@@ -114,8 +131,10 @@ def run_case(case, ctx, mon):
                     mon.by_clause["prefix-must-raise"] += 1
                     mon.counters["raised:" + type(exc).__name__] += 1
                     continue
+                inner_eocd = full[:off].rfind(sig)
                 mon.check(False, "prefix-must-raise", loader=name, offset=off, file_size=size,
-                          returned=type(obj).__name__, cfg=cfg)
+                          returned=type(obj).__name__, cfg=cfg,
+                          embedded_archive_in_payload=bool(0 <= inner_eocd < outer_eocd and case.get("embed")))
             mon.count("prefixes_tried")
         mon.count("files")
         mon.count("files:" + kind)
